@@ -2,16 +2,25 @@
 from harness import chk, includes, labels
 
 ID = "C04"
-MODULES = ["HeraProofs.Props.C04"]
+MODULES = ["HeraProofs.Props.C04", "HeraProofs.Props.C04b"]
 GENERATED_DEPS = ["Tables.lean", "Ops.lean", "Exec.lean"]
-EXPLANATION = ("Theorem C04_convert_length over the regenerated convert methods: every operation expands to exactly the number of "
-               "machine instructions that label placement counts for it (all classes, all operand tuples). The checker model "
+EXPLANATION = ("Theorems: C04_convert_length over the regenerated convert methods (every operation expands to exactly the number of "
+               "machine instructions that label placement counts for it, all classes, all operand tuples); over the checker model, for "
+               "all programs and all four modes: C04_pc_sum / C04_label_value (a label declared once denotes the sum of the counted "
+               "lengths of the operations before it: declarations and data statements 0, debugging operations 0 exactly when "
+               "assembling / preprocessing), C04_codeLen_expansion (the counted length is what the regenerated convert contributes "
+               "to the instruction stream after label substitution), C04_label_is_stream_index (hence the label's value is the "
+               "index, in the final instruction stream, of the first instruction that follows it), C04_dlabel_value (data labels: "
+               "data-segment start plus the cells laid out before it, INTEGER 1, LP_STRING length+1, DSKIP n). The checker model "
                "(get_labels, operation_length, substitute_label, convert_ops, check) is corresponded with the real check() - full symbol "
                "table, data list and code list - on generated programs in run/debug/assemble/preprocess mode x --big-stack. Oracles: "
                "the placement specification Sig.envAt vs the real symbol table; marker instructions after every label; data cells at "
                "data labels; relative branches to labels over distances around +-128 with pseudo-ops and debugging ops in between.")
-ASSUMPTIONS = ["the equality of get_labels' fold with the declarative placement specification is decided by the oracle on the streams "
-               "(theorem not yet written); includes are C16's subject"]
+ASSUMPTIONS = ["the whole-program theorems are over the hand model Model/Checker.lean (labelStep, convStep, convGo), tied to the real "
+               "checker by the correspondence stream; they assume operations of the shape the type checker lets through (right "
+               "operand count; register-branch operand a register or a symbol) and a label that is not declared again later",
+               "the reach rule for relative branches (-128..127) and constants are in the model and corresponded / oracle-decided; "
+               "includes are C16's subject"]
 
 
 def run(ctx):
